@@ -268,8 +268,11 @@ Definition mapply (b b' : base) (m : mst) (te : Z * ev) : mst :=
 Definition mon_C08 (b : base) (m : mst) (te : Z * ev) : list alarm :=
   match snd te with
   | EPromote i tok gid =>
-      when (negb (m_bal (mon_of m i) =? 0)) 801 ++ when (negb (tok =? io_tok (inst_of b i))) 803
-  | EDemote i gid => when (negb (m_bal (mon_of m i) =? 1)) 802
+      let x := inst_of b i in let c := cfg_of b i in
+      when (ic_hasdemote c && ic_haspromote c && negb (io_promotes x - io_demotes x =? 0)) 801 ++ when (negb (tok =? io_tok x)) 803
+  | EDemote i gid =>
+      let x := inst_of b i in let c := cfg_of b i in
+      when (ic_hasdemote c && ic_haspromote c && negb (io_promotes x - io_demotes x =? 1)) 802
   | EQuiet =>
       flat_map (fun ic =>
         let i := fst ic in let c := snd ic in let x := inst_of b i in let mm := mon_of m i in
